@@ -28,7 +28,7 @@ RULE = ("cases = (quantized_bits | quantized_linear, bits 2..8, integer 0..3 "
         "(/list for quantized_bits), elements_per_scale and min/max_po2_exponent "
         "(quantized_bits+auto_po2), post_training_scale (quantized_bits), "
         "keep_negative/symmetric (quantized_linear)) x (float32 tensor of rank "
-        "1..4, <= 96 elements, built group by group: normal / all-zero / single "
+        "1..4, <= 96 (thorough: 256) elements, built group by group: normal / all-zero / single "
         "non-zero / constant / sign-aligned / 2^-6 and 2^+6 relative "
         "magnitude; non-zero channel maxima within 2^-21..2^20) drawn by "
         "Hypothesis; a fifth of the cases are equivariance pairs (x, 2^k x), "
@@ -410,10 +410,11 @@ def run(ctx):
   if abs(float(tf.keras.backend.epsilon()) - EPS) > 1e-12:
     raise core.HarnessError("K.epsilon() is %r, reference assumes 1e-7" %
                             tf.keras.backend.epsilon())
+  G.configure(ctx.tier)
   for case in ctx.shard(edge_cases()):
     for sc, sig, d in oracle(ctx, case):
       ctx.fail(sc, sig, case, d)
-  n = (24000 if ctx.quick else 320000) // ctx.n + 1
+  n = (16000 if ctx.quick else 240000) // ctx.n + 1
   core.hyp_run(ctx, G.c05_case(), lambda c: oracle(ctx, c), n, name="c05")
 
 
